@@ -767,6 +767,11 @@ func (m *StateMachine) sendInitialActionSet(ctx context.Context) (
 		rlc.Reset(ctx, initRE.H, initRE.R)
 		rlc.HeightCommitted = hc
 
+		// The header may have been committed in another round than the one we entered.
+		// The finalization belongs to the commit round:
+		// the request names it, the driver echoes it, and it is what gets stored.
+		rlc.R = rer.CH.Proof.Round
+
 		// This is a replay, so we can just tell the driver to finalize it.
 		finReq := tmdriver.FinalizeBlockRequest{
 			Header: rer.CH.Header,
@@ -842,6 +847,12 @@ func (m *StateMachine) handleViewUpdate(
 		m.handleCommitWaitViewUpdate(ctx, rlc, vrv)
 	default:
 		panic(fmt.Errorf("TODO: handle view update for step %q", rlc.S))
+	}
+
+	if rlc.IsReplaying() {
+		// The update ended the round, and the mirror answered the next round entrance
+		// with a committed header: the rest of this update was about the round we left.
+		return
 	}
 
 	if vrv.Height == rlc.VRV.Height && vrv.Round == rlc.VRV.Round {
@@ -1821,6 +1832,16 @@ func (m *StateMachine) advance(
 	} else {
 		// The state machine is still catching up with the mirror.
 		rlc.MarkCatchingUp()
+
+		// The view left over from the round we came from says nothing about this height and round.
+		// Without a view, rlc.IsReplaying reports true, so the kernel only waits for the finalization
+		// instead of treating mirror updates as if they belonged to the replayed round.
+		rlc.VRV = nil
+
+		// The header may have been committed in another round than the one we entered.
+		// The finalization belongs to the commit round:
+		// the request names it, the driver echoes it, and it is what gets stored.
+		rlc.R = rer.CH.Proof.Round
 
 		// The commit wait counts as elapsed during catchup,
 		// so the only thing left to wait for is the finalization.
